@@ -12,6 +12,7 @@ from ..alg import Poly, Q, MQ, Rat, is_zero
 from ..elems import ElemLib, topology
 from ..gausslib import GaussLib
 from ..geom import Geometry, rule_exact_on
+from .. import beamops
 from ..femchain import Chain, fe_hook
 from ..repo import AnalysisError, dotted, norm_text
 from ..xeval import Interp, XObj
@@ -262,3 +263,4 @@ def run(ctx):
     irons_rule(ctx, lib, gl)
     hermite_complete(ctx, lib)
     constant_strain(ctx, lib, want)
+    beamops.rule(ctx, lib, "R1.7")  # constant axial strain / curvature of beams
